@@ -632,12 +632,13 @@ func (r *Resolver) ResolveGraphQLDeferResponse(ctx *Context, response *GraphQLDe
 				// zero writes hasNext:false.
 				outstanding := int64(len(liveTop))
 				dc := &deferContext{
-					response:   response,
-					info:       response.Response.Info,
-					db:         db,
-					resolvable: resolvable,
-					writer:     writer,
-					arena:      resolveArena.Arena,
+					response:      response,
+					info:          response.Response.Info,
+					db:            db,
+					resolvable:    resolvable,
+					writer:        writer,
+					arena:         resolveArena.Arena,
+					authorization: authorization,
 				}
 				if err := r.resolveDeferTree(dc, ctx, liveTree, &outstanding); err != nil {
 					return nil, err
@@ -661,6 +662,10 @@ type deferContext struct {
 	// arena backs every defer group's loader. It is shared across groups; every
 	// allocation from it is serialised by db's lock (see resolveDeferSingle).
 	arena arena.Arena
+	// authorization holds the request's seeded pre-fetch decisions. Group loaders consult it
+	// in their prepare phase (under db's lock, like the render that may add to it) so that a
+	// deferred fetch whose root fields are all denied is not sent either.
+	authorization *FieldAuthorization
 }
 
 // resolveDeferSingle fetches and renders a single deferred fragment, announcing
@@ -681,7 +686,7 @@ func (r *Resolver) resolveDeferSingle(dc *deferContext, ctx *Context, group *Def
 	// the arena only in its prepare and merge phases, both of which hold
 	// dc.db.Lock(), and the off-lock network phase allocates nothing from it. The
 	// lock therefore serialises every arena allocation across all groups.
-	groupLoader := NewLoader(r.options, r.allowedErrorExtensionFields, r.allowedErrorFields, r.subgraphRequestSingleFlight, dc.arena, dc.db, nil)
+	groupLoader := NewLoader(r.options, r.allowedErrorExtensionFields, r.allowedErrorFields, r.subgraphRequestSingleFlight, dc.arena, dc.db, dc.authorization)
 	groupLoader.Init(ctx, dc.info) // fresh taintedObjs; errors=nil
 
 	if fetchErr := groupLoader.ResolveFetchNode(group.Fetches); fetchErr != nil {
